@@ -423,7 +423,8 @@ func init() {
 var _ = ssa.NewProgram
 
 // ---------- gzip contract stub ----------
-// Writer: compressed form = 1f 8b ++ data, remembered; Reader: input that
+// Writer: compressed form = 1f 8b ++ data (three bytes for inputs of 64 bytes
+// and more: any compression ratio is possible), remembered; Reader: input that
 // equals a remembered compressed form yields the original data, anything
 // else yields an error or arbitrary bytes (0..2).
 
@@ -526,6 +527,11 @@ func init() {
 		}
 		data := bytesOf(args[1])
 		comp := append([]*Term{e.tt.BV(8, 0x1f), e.tt.BV(8, 0x8b)}, data...)
+		if len(data) >= 64 {
+			// long input: gzip may compress at any ratio - here down to a
+			// three byte token (the original is remembered)
+			comp = []*Term{e.tt.BV(8, 0x1f), e.tt.BV(8, 0x8b), e.tt.BV(8, uint64(0xC0|len(e.gzipLog)&0x3f))}
+		}
 		e.gzipLog = append(e.gzipLog, gzipEntry{comp, data})
 		a := make([]Value, len(comp))
 		for i, b := range comp {
